@@ -46,6 +46,11 @@ CHECKS = {
             "All sequences of up to N documents (quick 4, thorough 5) over 16 document kinds (valid maps, empty, '~', 'null', defines an anchor, aliases an anchor of an earlier document, type error in the first / last node, syntax error, unterminated flow, errors at the very first token, '...' end marker with trailing comment) rendered with 3 separator styles. For every history the real from_multiple, from_slice_multiple, read (drained with a hard item cap), from_str and from_reader are run on the stream and compared with the list obtained by classifying each document on its own text: batch = values of the non-null documents or Err; iterator = the same items in order, continuing after type-level errors, ending after the first syntax-level error, always terminating; single-document entry points reject any second document. stateright explores the full space (1+16+16^2+...), is run twice (state counts must agree) and its three 'sometimes' coverage properties must be discovered.",
             "Trusted: classification of a document on its own text (raw parser rejects = syntax-level). Whether the iterator can continue after an 'unknown anchor' parser error is treated as unspecified (either is accepted).",
             "DESIGN.md §3 C11"),
+    "C13": ("model_checking",
+            "bounded-exhaustive enumeration of all small value trees over the Serde data-model shapes x serializer option vectors, typed identity round trip through the real serializer and deserializer",
+            "Every value tree of up to N nodes (quick 4, thorough 5: 760k values) over 13 leaf shapes (int, unit, bool, short / multi-line / empty string, None, float, empty seq / map, unit variant, unit struct, char), 8 one-child container shapes (Some, 1-element seq, newtype struct, map with string / int / bool key, the child as a map KEY, newtype variant) and 7 two-child shapes (seq, tuple, tuple struct, string-keyed map, struct, tuple variant, struct variant) - so every parent/child and sibling shape pair occurs - under all 128 combinations of indent 2|3, compact_list_indent, empty_as_braces, quote_all, yaml_12, prefer_block_scalars, tagged_enums (plus indent 1/4/8 and a custom anchor-name generator on the <=3-node set). The emitted text must scan in saphyr-parser as exactly one document and a typed, seed-driven read-back (issuing the same deserialize_* calls as a derived impl) must return the same value.",
+            "Trusted: saphyr-parser as judge of well-formedness; the run-time DeserializeSeed. Not representable by construction and therefore not test cases: Some(null-like), the explicit-empty-key idioms ({} in an Option key, {~: v} keys), and - only with empty_as_braces=false, whose documented effect is to write empty collections as nothing - empty collections at the root, inside Some or inside a key.",
+            "DESIGN.md §3 C13"),
     "C14": ("model_checking",
             "exhaustive enumeration of all set partitions of the strong slots of a fixed layout into shared allocations x payload kinds x Rc|Arc x weak-edge sets; pointer-equality oracle on the real round trip",
             "A document type with six strong anchor slots (two struct fields, two sequence elements, a map value, a field of a nested struct) and a list of weak anchors. Every set partition of the first k slots (quick k<=4, thorough all 203 partitions of 6) into shared allocations, x 6 payload kinds (String, Vec, BTreeMap, Option (None and Some), unit, a struct that itself holds an RcAnchor) x Rc|Arc x weak-edge sets (none; one edge to each live class or to a dropped target; all pairs) is serialized and read back by the real library: for every pair of slots Rc::ptr_eq / Arc::ptr_eq after must equal before, values must be equal, live weak edges must upgrade to the right allocation, dangling ones must stay dangling, and each shared payload must be emitted exactly once. Chains of 1..3 (thorough 4) nodes through RcRecursive/ArcRecursive with every back edge (Option<RcRecursion>) must be restored.",
@@ -77,7 +82,7 @@ NOT_APPLICABLE = {
 }
 
 # built but not yet claimed: they still report untriaged violations on the unchanged tree
-PENDING = {"C12", "C13"}
+PENDING = set()
 
 ALL = ["C%02d" % i for i in range(1, 21)]
 
